@@ -494,7 +494,7 @@ pub assume_specification<T: Clone, EE: Clone> [<Result<T, EE> as Clone>::clone] 
     zov['indexed_identifier_to_asg_type'].update(ret='r', props=['C06', 'C03', 'C07'], loops={1: ITER_NB('oq3_it1', '\n    oq3_v1@.len() + oq3_it1.rest().len() == indexed_identifier.sp_index_operators().len(),')},
         spec='ensures grows(*old(context), *final(context)), r.0.indexes@.len() == indexed_identifier.sp_index_operators().len(),     //@C06,C07:indexes-keep-count')
     DECLS = 'forall|i: int| 0 <= i < %s.sp_statements().len() ==> decl_bound(*final(context), #[trigger] %s.sp_statements()[i]),     //@C07:declarations-bind-in-the-scope-of-their-block'
-    zov['block_expr_to_asg_stmt_list'].update(ret='r', props=['C06', 'C03', 'C07'], loops={1: ITER('oq3_it1', '''
+    zov['block_expr_to_asg_stmt_list'].update(ret='r', props=['C06', 'C03', 'C07', 'C13', 'C08', 'C09'], loops={1: ITER('oq3_it1', '''
     !context.global(), oq3_v1@.len() + oq3_it1.rest().len() <= block.sp_statements().len(),
     oq3_it1.rest().len() <= block.sp_statements().len(),
     oq3_it1.rest() =~= block.sp_statements().skip(block.sp_statements().len() - oq3_it1.rest().len()),
@@ -702,7 +702,11 @@ ensures
 ensures
     r == asg::Stmt::DeclareClassical(Box::new(asg::DeclareClassical { name: symbol_id, initializer })),
     final(context).errs() == old(context).errs(), final(context).trace() == old(context).trace(), final(context).symbol_table == old(context).symbol_table,
+    // the value of a const symbol is recorded -- in whatever scope it is declared -- so that it can serve as a width / register length
+    (initializer is Some && types::sp_is_const(initializer->Some_0.ty) && symbol_id is Ok)
+        ==> final(context).const_value(symbol_id->Ok_0) == Some(initializer->Some_0),                                //@C09:const-value-recorded
 '''))
+    zov.setdefault('declare_classical_helper', {})['props'] = ['C08', 'C03', 'C09']
     zov.setdefault('can_cast_literal', {}).update(dict(ret='r', props=['C08'], rewrites=[('D23', 'matches!(lhs_type, &Type::UInt(..))', 'matches!(*lhs_type, Type::UInt(..))')], spec='ensures (r && !(*lhs_type is UInt && literal is Int)) ==> !types::must_diagnose(*lhs_type, *init_type),      //@C08:no-literal-cast-for-kind-lowering'))
     KL_ = 'proof { assert(types::must_diagnose(lhs_type, it0) ==> type_diag_last(context.errs())); assert((types::narrows(lhs_type, it0) && !(initializer.expression is Literal)) ==> type_diag_last(context.errs())); }     //@C08:kind-lowering-always-diagnosed'
     zov.setdefault('classical_declaration_statement_to_asg_stmt', {})['ghost'] = [
@@ -802,7 +806,8 @@ ensures
         &&& b->Bind_1 == type_of(type_decl.sp_scalar_type()->Some_0.sp_kind(), written_width(b->Bind_1), false)
     }),                                                                                                             //@C09:declared-symbol-has-the-type-written''',
         ghost=[('context.new_binding(name_str.as_ref(), &typ, &type_decl.name().unwrap());', 'after', RM_('symbol_id', 'name_str@'))]))
-    zov['syntax_to_semantic'] = dict(ret='r', props=['C03', 'C06', 'C07', 'C11', 'C12'], for_iter=['statements'], destruct=True, string_eq=['file_path'],
+    zov['syntax_to_semantic'] = dict(ret='r', props=['C03', 'C06', 'C07', 'C11', 'C12', 'C13', 'C08', 'C09'],     # (every top-level statement is analysed: whatever the analysis reports or records depends on it)
+         for_iter=['statements'], destruct=True, string_eq=['file_path'],
         spec='''requires
     context.wf(), context.global(),
     source::analyzable(parsed_source.sp_syntax_ast(), parsed_source.sp_included()) /* AP: established by oq3_source_file::parse_included_files */,
